@@ -486,7 +486,7 @@ func (ex *executor) havocLoop(li *loopInfo, st *state) {
 					if li.body[rg.Block()] {
 						// nested range statement: re-initialised inside the body
 					} else {
-						ghostVisited = append(ghostVisited, ex.visitedClass(rg).Name)
+						ghostVisited = append(ghostVisited, ex.visitedClass(rg).Name, ex.nvisitedClass(rg).Name)
 					}
 				}
 			case ssa.CallInstruction:
